@@ -210,6 +210,51 @@ def render(op, tuples):
             for v, t in zip(vs, op['rets']): lines.append(printer(t, v))
     return head + '\n'.join(lines) + '\n'
 
+# ---- symbolic operands: the same operations on values the optimiser cannot know (elements of run-time lists), in the shapes the
+# ---- peephole table rewrites: both operands the same expression, and one operand a literal identity/absorbing candidate.
+# ---- (added after seeded change C02-peep-le-self: `x <= x' was folded to false; constant tuples never reach those rules.)
+SYM_VALUES = {'SInt': [0, 1, -1, 2, -2, 7, 2147483648, 9223372036854775807, -9223372036854775807],
+              'BInt': [0, 1, -1, 2, -7, 2**64 + 3, -(2**64) - 3], 'Bool': [False, True], 'Char': [0, 65, 97, 127],
+              'HInt': [0, 1, -1, 127, -128, 32767], 'Byte': [0, 1, 128, 255], 'Word': [0, 1, -1, 4294967296],
+              'DFlo': ['0.0', '1.0', '-1.0', '2.5', '1.0e300'], 'SFlo': ['0.0', '1.0', '-1.0', '2.5', '3.0e38']}
+SYM_LITS = {'SInt': [0, 1, -1], 'BInt': [0, 1, -1], 'Bool': [False, True], 'Char': [0, 65], 'HInt': [0, 1, -1], 'Byte': [0, 1], 'Word': [0, 1],
+            'DFlo': ['0.0', '1.0'], 'SFlo': ['0.0', '1.0']}
+SYM_LIST = {'SInt': 'MachineInteger', 'BInt': 'Integer', 'Bool': 'Boolean', 'Char': 'MachineInteger', 'HInt': 'MachineInteger', 'Byte': 'MachineInteger',
+            'Word': 'MachineInteger', 'DFlo': 'DoubleFloat', 'SFlo': 'SingleFloat'}
+SYM_CONV = {'SInt': '(%s::SInt)', 'BInt': '(%s::BInt)', 'Bool': '(%s::Bool)', 'Char': 'CharNum(%s::SInt)', 'HInt': 'SIntToHInt(%s::SInt)',
+            'Byte': 'SIntToByte(%s::SInt)', 'Word': '((%s::SInt) pretend Word)', 'DFlo': '(%s::DFlo)', 'SFlo': '(%s::SFlo)'}
+SYM_EXCLUDE = re.compile(r'Quo|Rem|Divide|Mod|Gcd|Shift|Power|Bit|Dissemble|Assemble|RTimes|RPlus|RMinus|RDivide|Lcm')
+def sym_eligible(op):
+    return len(op['args']) == 2 and op['args'][0] == op['args'][1] and op['args'][0] in SYM_VALUES and not SYM_EXCLUDE.search(op['name'])
+def srcval(t, v):
+    if t == 'Bool': return 'true' if v else 'false'
+    if t in ('DFlo', 'SFlo'): return v if not v.startswith('-') else '(-%s)' % v[1:]
+    return str(v) if v >= 0 else '(-%d)' % -v
+def render_sym(op):
+    """returns (source text, tuples in the order their results are printed)"""
+    t = op['args'][0]
+    imps = dict(HELPERS); imps[op['name']] = sig(op)
+    head = HEAD % '\n'.join('  %s: %s;' % kv for kv in sorted(imps.items()))
+    head = head.replace('  CharOrd_: (Char) -> SInt;\n', '')
+    vals = SYM_VALUES[t]; lits = SYM_LITS[t]
+    L = ['import from List %s;' % SYM_LIST[t], 'zqn: MachineInteger := 0;',
+         'zqA: List %s := [%s];' % (SYM_LIST[t], ', '.join(srcval(t, v) for v in vals))]
+    mark = 'stdout << "@" << zqn << newline; zqn := zqn + 1; '
+    cv = SYM_CONV[t]
+    def out(e): return printer(op['rets'][0], e) if len(op['rets']) == 1 else None
+    if len(op['rets']) != 1: return None, []
+    tuples = []
+    L.append('for zqa in zqA repeat for zqb in zqA repeat { %s%s }' % (mark, out('%s(%s, %s)' % (op['name'], cv % 'zqa', cv % 'zqb'))))
+    tuples += [(a, b) for a in vals for b in vals]
+    L.append('for zqa in zqA repeat { %s%s }' % (mark, out('%s(%s, %s)' % (op['name'], cv % 'zqa', cv % 'zqa'))))
+    tuples += [(a, a) for a in vals]
+    for l in lits:
+        L.append('for zqa in zqA repeat { %s%s }' % (mark, out('%s(%s, %s)' % (op['name'], cv % 'zqa', lit(t, l)))))
+        tuples += [(a, l) for a in vals]
+        L.append('for zqa in zqA repeat { %s%s }' % (mark, out('%s(%s, %s)' % (op['name'], lit(t, l), cv % 'zqa'))))
+        tuples += [(l, a) for a in vals]
+    return head + '\n'.join(L) + '\n', tuples
+
 def split_out(out):
     """{tuple index: [lines]}"""
     res = {}; cur = None
@@ -262,12 +307,17 @@ def main():
         if op['name'] in ('DFloDivide', 'SFloDivide', 'SFloRDivide', 'DFloRDivide'): tuples = [t for t in tuples if float(t[1]) != 0.0]
         for i in range(0, len(tuples), per_file):
             jobs.append((op, i // per_file, tuples[i:i + per_file]))
-    ctx.log('%d ops in scope, %d not driven, %d source files' % (len(ops), len(notdriven), len(jobs)))
+    nsym = 0
+    for op in ops:
+        if sym_eligible(op):
+            text, tuples = render_sym(op)
+            if text: jobs.append((op, 'sym', tuples)); nsym += 1
+    ctx.log('%d ops in scope, %d not driven, %d source files (%d with symbolic operands)' % (len(ops), len(notdriven), len(jobs), nsym))
     import itertools as _it
     def work(job):
         op, part, tuples = job
-        d = ctx.tmp('%s_%d' % (op['name'], part))
-        text = render(op, tuples)
+        d = ctx.tmp('%s_%s' % (op['name'], part))
+        text = render_sym(op)[0] if part == 'sym' else render(op, tuples)
         res = {}
         for sub in ('i0', 'c0', 'i2'):
             os.makedirs(os.path.join(d, sub), exist_ok=True)
@@ -297,7 +347,7 @@ def main():
             ft = fault_text(p)
             if p.timeout or ft or (p.rc != 0):
                 # a route that cannot even run the file
-                ctx.violation('route-failed:%s:%s' % (name, route), 'op %s file %d: route %s: %s %s\n%s' % (name, part, route, p.cause, ft, (p.out[-600:] + p.err[-600:]).decode(errors='replace')), files={'x.as': text})
+                ctx.violation('route-failed:%s:%s' % (name, route), 'op %s file %s: route %s: %s %s\n%s' % (name, part, route, p.cause, ft, (p.out[-600:] + p.err[-600:]).decode(errors='replace')), files={'x.as': text})
                 bad_route = True
             outs[route] = split_out(p.out)
         st['tuples'] += len(tuples); ntuples += len(tuples)
@@ -317,7 +367,7 @@ def main():
                 nmodel += 1; st['modelled'] += 1
                 for r, g in got.items():
                     if g != exp:
-                        ctx.violation('wrong:%s:%s' % (name, r), '%s%s on %s: got %s, definition gives %s (others: %s)' % (name, tup, r, g, exp, got), files={'x.as': text, 'tuple.txt': '%s %r' % (name, tup)})
+                        ctx.violation('wrong:%s:%s' % (name, r), '%s%s%s on %s: got %s, definition gives %s (others: %s)' % (name, tup, ' [run-time operands]' if part == 'sym' else '', r, g, exp, got), files={'x.as': text, 'tuple.txt': '%s %r' % (name, tup)})
             elif not all(v == vals[0] for v in vals):
                 ctx.violation('disagree:%s' % name, '%s%s: %s' % (name, tup, got), files={'x.as': text, 'tuple.txt': '%s %r' % (name, tup)})
     never_folded = sorted(n for n, s_ in per_op.items() if s_['folded'] == 0)
